@@ -10,7 +10,7 @@ import (
 
 func init() {
 	props["C09"] = c09
-	floors["C09"] = map[string]int{"C09.R1": 3, "C09.R2": 13, "C09.R3": 10, "C09.R4": 7, "C09.R5": 8}
+	floors["C09"] = map[string]int{"C09.R1": 3, "C09.R2": 13, "C09.R3": 10, "C09.R4": 8, "C09.R5": 8}
 }
 
 // anyFlowMu reports whether some lock whose path ends in ".flowMu" is held.
@@ -375,6 +375,32 @@ func flowWakeRules(r *Report) {
 		}
 		r.Decide("flow", "(*M/h2.relay).updateWindow: the stream's buffer comes from outputBuffer(f.StreamID)", okAcc, "created on demand", "the update bypasses the accessor that creates a stream's buffer on demand", uw.Pos())
 	}
+	// a stream's output buffer (and the frames queued in it) is never discarded
+	{
+		ndel, nassign := 0, 0
+		for _, f := range w.Funcs("h2") {
+			if f.Name() == "newRelay" {
+				continue
+			}
+			for _, in := range instrs(f) {
+				if d, isD := isBuiltinCall(in, "delete"); isD {
+					if anyIn(w.backSlice(d.Call.Args[0], flowOpt{}), func(v ssa.Value) bool { fa, y := v.(*ssa.FieldAddr); return y && fieldObj(fa).Name() == "outputBuffers" }) {
+						ndel++
+						r.Fail("callgraph", "relay.outputBuffers entry deleted in "+fnName(f), "a stream's output buffer is discarded: DATA and the frames queued behind it (for example an RST_STREAM waiting for window) are never delivered", nil, d.Pos())
+					}
+				}
+				if st, isSt := in.(*ssa.Store); isSt {
+					if fa, y := st.Addr.(*ssa.FieldAddr); y && fieldObj(fa).Name() == "outputBuffers" {
+						nassign++
+						r.Fail("callgraph", "relay.outputBuffers replaced in "+fnName(f), "the map of output buffers is replaced while frames may be queued", nil, st.Pos())
+					}
+				}
+			}
+		}
+		if ndel+nassign == 0 {
+			r.Hold("callgraph", "relay.outputBuffers entries are never deleted or replaced", "no delete / reassignment outside newRelay", uw.Pos())
+		}
+	}
 	// sendQueuedFramesUnderWindowSize visits every buffer
 	ok := false
 	for _, c := range plainCalls(sq, "(*M/h2.outputBuffer).emitEligibleFrames") {
@@ -488,6 +514,21 @@ func frameSizeRules(r *Report) {
 				a0 := anyIn(w.backSlice(c.Call.Args[0], flowOpt{BinOps: true}), func(v ssa.Value) bool { return v == max })
 				a1 := anyIn(w.backSlice(c.Call.Args[1], flowOpt{BinOps: true}), func(v ssa.Value) bool { return v == max })
 				ok = a0 && a1
+				// the first-chunk limit is the one reduced by the frame's own metadata (priority octets /
+				// promised stream id); the continuation limit is the plain maximum
+				isDeducted := func(v ssa.Value) bool {
+					return anyIn(w.backSlice(v, flowOpt{BinOps: true}), func(x ssa.Value) bool {
+						b, y := x.(*ssa.BinOp)
+						if !y || b.Op != token.SUB {
+							return false
+						}
+						_, isC := constInt(b.Y)
+						return isC
+					})
+				}
+				if !isDeducted(c.Call.Args[0]) || isDeducted(c.Call.Args[1]) {
+					ok = false
+				}
 			}
 			r.Decide("flow", fmt.Sprintf("(*M/h2.%s): header block split by the maximum frame size", name), ok, "both chunk limits derive from maxFrameSize", "header chunks are not bounded by the receiver's maximum frame size", f.Pos())
 		}
